@@ -55,19 +55,20 @@ type c20Call struct {
 	Args []int  `json:"args"`
 }
 type c20Case struct {
-	Part   string          `json:"part"`
-	Fn     string          `json:"fn,omitempty"`
-	Groups [][]string      `json:"groups,omitempty"`
-	X      []int           `json:"x,omitempty"`
-	N      int             `json:"n"`
-	Bound  []int           `json:"bound,omitempty"`
-	Args   []int           `json:"args,omitempty"`
-	ErrAt  int             `json:"errAt"`
-	Calls  []c20Call       `json:"calls,omitempty"`
-	Ps     []c20Pat        `json:"ps,omitempty"`
-	Probe  json.RawMessage `json:"probe,omitempty"`
-	Ty     *c20Type        `json:"ty,omitempty"`
-	Objs   []c20Obj        `json:"objs,omitempty"`
+	Part    string          `json:"part"`
+	Fn      string          `json:"fn,omitempty"`
+	Groups  [][]string      `json:"groups,omitempty"`
+	X       []int           `json:"x,omitempty"`
+	N       int             `json:"n"`
+	Bound   []int           `json:"bound,omitempty"`
+	Args    []int           `json:"args,omitempty"`
+	ErrAt   int             `json:"errAt"`
+	ErrDone bool            `json:"errDone"` // the failing step also reports done
+	Calls   []c20Call       `json:"calls,omitempty"`
+	Ps      []c20Pat        `json:"ps,omitempty"`
+	Probe   json.RawMessage `json:"probe,omitempty"`
+	Ty      *c20Type        `json:"ty,omitempty"`
+	Objs    []c20Obj        `json:"objs,omitempty"`
 }
 
 func nzi(s []int) []int {
@@ -335,7 +336,7 @@ func c20Adapter(c *c20Case) map[string]interface{} {
 }
 
 func c20Trampoline(c *c20Case) map[string]interface{} {
-	out := map[string]interface{}{"part": c.Part, "x": c.X, "errAt": c.ErrAt, "kind": "ok", "out": []int{}, "steps": 0}
+	out := map[string]interface{}{"part": c.Part, "x": c.X, "errAt": c.ErrAt, "errDone": c.ErrDone, "kind": "ok", "out": []int{}, "steps": 0}
 	defer func() {
 		if p := recover(); p != nil {
 			out["kind"] = "panic"
@@ -345,7 +346,7 @@ func c20Trampoline(c *c20Case) map[string]interface{} {
 	res, err := fpgo.Trampoline(func(st ...int) ([]int, bool, error) {
 		steps++
 		if steps == c.ErrAt {
-			return []int{-1, -1}, false, errors.New("boom")
+			return []int{-1, -1}, c.ErrDone, errors.New("boom")
 		}
 		if st[0] == 0 {
 			return st, true, nil
@@ -533,6 +534,7 @@ func c20CurryMarksDone(k int) map[string]interface{} {
 
 // ---- pattern matching
 type probeS struct{ A int }
+type probeP struct{ P *int }
 
 var c20TypeA fpgo.CompType
 var c20Probes map[string]interface{}
@@ -576,15 +578,16 @@ func c20ObjValue(o c20Obj) interface{} {
 
 func c20InitProbes() {
 	c20TypeA = fpgo.DefSum(fpgo.NilType, fpgo.DefProduct(reflect.Int, reflect.String), fpgo.DefProduct(reflect.String))
-	x := 5
+	x, y := 5, 5
 	var np *int
 	c20Probes = map[string]interface{}{
 		"int42": 42, "int7": 7, "strHello": "hello", "strCcc": "ccc", "nilU": nil, "nilPtr": np,
-		"structS": probeS{1}, "ptrS": &probeS{1}, "slice": []int{1}, "float": 1.5, "boolT": true, "ptrInt": &x,
+		"structS": probeS{1}, "ptrS": &probeS{1}, "slice": []int{1}, "float": 1.5, "boolT": true, "ptrInt": &x, "structP": probeP{&x},
 		"compA1": fpgo.NewCompData(c20TypeA, 1, "1"), "compA2": fpgo.NewCompData(c20TypeA, "2"), "compNil": fpgo.NewCompData(c20TypeA, nil),
 		"compA1v": *fpgo.NewCompData(c20TypeA, 1, "1"),
 	}
-	c20EqValues = map[int]interface{}{1: 42, 2: 7, 3: "hello", 4: "ccc", 5: nil, 6: np, 7: probeS{1}, 9: 1.5, 10: true}
+	c20EqValues = map[int]interface{}{1: 42, 2: 7, 3: "hello", 4: "ccc", 5: nil, 6: np, 7: probeS{1}, 9: 1.5, 10: true,
+		11: &y, 12: &x, 13: probeP{&x}, 14: probeP{&y}} // 11 / 14: look-alikes of 12 / 13 (equal pointees, other pointers): not equal
 }
 
 func c20Match(c *c20Case) map[string]interface{} {
